@@ -75,7 +75,7 @@ Proof.
     + rewrite E4, E2. exact S4.
   - exact Htbl'.
   - (* counters *)
-    destruct Hcnt as [C1 C2 C3 C4 C5]. split; cbn [heap_of set_heap mk log].
+    destruct Hcnt as [C1 C2 C3 C4 C5 C6]. split; cbn [heap_of set_heap mk log].
     + intros o b' n Hb' Hn. rewrite HW. destruct (hsl_back _ _ _ _ Hs Hb') as (b & Hb & S).
       apply (C1 o b n Hb). destruct S as (E1 & _). rewrite <- E1. exact Hn.
     + intros o b' Hb'. rewrite HW. destruct (hsl_back _ _ _ _ Hs Hb') as (b & Hb & S).
@@ -87,6 +87,8 @@ Proof.
       destruct (C4 o b Hb Hp) as [U Lk]. destruct S as (E1 & _ & _ & _ & E5).
       split; [congruence|]. apply E5. exact Lk.
     + intros o Ho. rewrite !HW. apply C5. apply nth_error_None. apply nth_error_None in Ho. lia.
+    + intros o b' Hb' Hp. destruct (hsl_back _ _ _ _ Hs Hb') as (b & Hb & S).
+      destruct S as (E1 & _). rewrite E1. apply (C6 o b Hb Hp).
   - (* no dangling handle *)
     intros o Ho. rewrite Hheld in Ho. destruct (Hnd o Ho) as (b & Hb & L).
     destruct (Hfw o b Hb) as (b' & Hb' & S). exists b'. split; [exact Hb'|].
